@@ -434,7 +434,9 @@ func ExtractListing(c *Ctx) (*Sibling, error) {
 }
 
 // listCloneHelper recognises a call of a same-package function
-//   func h(list []T) []T { var out []T; for _, v := range list { out = append(out, Clone(v).(T)) }; return out }
+//
+//	func h(list []T) []T { var out []T; for _, v := range list { out = append(out, Clone(v).(T)) }; return out }
+//
 // and returns the KList event of the equivalent inline loop.
 func (x *cloneX) listCloneHelper(call *ast.CallExpr) (Event, bool) {
 	c := x.c
